@@ -997,6 +997,97 @@ fn two_source_hom(ctx: &mut Ctx, spdc: &SPDC, scaled: &SPDC, a: f64, b: f64, ran
   ctx.count("c07/hom-two-source/judged");
 }
 
+
+/// "Normalised spectra are independent of power and deff" as a SEQUENCE in one process: absolute powers 1e-6…1e3 mW and
+/// deff 1e-6…1e3 pm/V, pairs that differ only in the 5th–8th significant digit, every JointSpectrum built fresh, in a
+/// shuffled order, and every setup re-checked at the end (same setup ⇒ same values whatever was constructed before).
+fn history_block(ctx: &mut Ctx, spdc: &SPDC, integ: Integrator, desc: &str) {
+  let ws0 = raw_w(spdc.signal.frequency());
+  let wi0 = raw_w(spdc.idler.frequency());
+  let sigma = raw_w(fwhm_to_spectral_width(spdc.pump.vacuum_wavelength(), spdc.pump_bandwidth));
+  let pts = [(ws0, wi0), (ws0 + 0.3 * sigma, wi0 + 0.2 * sigma)];
+  let p0 = spdc.pump_average_power.value_unsafe; // mW
+  let d0 = spdc.deff.value_unsafe; // m/mV = 1e15 pm/V
+  let pmv = 1e-15;
+  let tiny_p = ctx.rng.log_range(1e-6, 4e-5);
+  let tiny_d = ctx.rng.log_range(1e-6, 4e-5) * pmv;
+  let mut variants: Vec<(f64, f64)> = vec![
+    (p0, d0),
+    (tiny_p, d0),
+    (tiny_p * ctx.rng.range(1.5, 9.0), d0),
+    (p0, tiny_d),
+    (p0, tiny_d * ctx.rng.range(1.5, 9.0)),
+    (tiny_p, tiny_d),
+    (p0 * (1.0 + 10f64.powf(ctx.rng.range(-8.0, -5.0))), d0),
+    (p0, d0 * (1.0 + 10f64.powf(ctx.rng.range(-8.0, -5.0)))),
+    (ctx.rng.log_range(1e-6, 1e3), ctx.rng.log_range(1e-6, 1e3) * pmv),
+    (1e3, 1e3 * pmv),
+    (ctx.rng.log_range(1e-4, 1e-2), ctx.rng.log_range(1e-4, 1e-2) * pmv),
+  ];
+  // shuffle (Fisher–Yates) but keep the reference values from whichever comes first
+  for i in (1..variants.len()).rev() {
+    let j = ctx.rng.below(i + 1);
+    variants.swap(i, j);
+  }
+  let eval = |p: f64, d: f64| -> Option<Vec<f64>> {
+    let mut s = spdc.clone();
+    s.pump_average_power = p * MILLIW;
+    s.deff = MetersPerMilliVolt::new(d);
+    guard(move || {
+      let js = s.joint_spectrum(integ);
+      let mut out = Vec::new();
+      for (ws, wi) in pts {
+        out.push(js.jsi_normalized(w(ws), w(wi)));
+        out.push(js.jsi_singles_normalized(w(ws), w(wi)));
+        let a = js.jsa_normalized(w(ws), w(wi));
+        out.push(a.re);
+        out.push(a.im);
+      }
+      out
+    })
+  };
+  let close = |x: &[f64], y: &[f64], tol: f64| {
+    x.len() == y.len()
+      && x.iter().zip(y.iter()).all(|(a, b)| (a == b) || (!a.is_finite() && !b.is_finite()) || (a - b).abs() <= tol * a.abs().max(b.abs()).max(1e-300))
+  };
+  let mut first: Vec<Option<Vec<f64>>> = Vec::new();
+  for (p, d) in variants.iter() {
+    first.push(eval(*p, *d));
+  }
+  // values whose intermediate |jsa|² leaves the normal range carry no relative precision (see the range guards above)
+  let usable = |v: &Vec<f64>| v.iter().all(|x| x.is_finite()) && v[0] > 1e-200 && v[0] < 1e200;
+  let reference = match first.iter().flatten().find(|v| usable(v)) {
+    Some(v) => v.clone(),
+    None => {
+      ctx.count("c07/history/no-usable-reference");
+      return;
+    }
+  };
+  for (k, (p, d)) in variants.iter().enumerate() {
+    let det = format!("order={} power_mw={:.17e} deff_pm_per_v={:.17e} {}", k, p, d / pmv, desc);
+    match &first[k] {
+      None => ctx.s("C07.invariant", false, "invariant/sequence/panic", &det),
+      Some(v) => {
+        // absolute scale of the amplitude must stay representable: power·deff² spans 1e-24…1e9 of the base here
+        if !usable(v) {
+          ctx.count("c07/history/out-of-range");
+          continue;
+        }
+        ctx.s("C07.invariant", close(v, &reference, 1e-9), "invariant/sequence/normalized-spectra", &format!("values={:?} reference={:?} {}", v, reference, det));
+      }
+    }
+  }
+  // history independence: rebuild every setup (reverse order) — same setup, same values
+  for k in (0..variants.len()).rev() {
+    let (p, d) = variants[k];
+    let det = format!("order={} power_mw={:.17e} deff_pm_per_v={:.17e} {}", k, p, d / pmv, desc);
+    if let (Some(v1), Some(v2)) = (&first[k], eval(p, d)) {
+      ctx.s("C07.invariant", close(v1, &v2, 1e-12), "invariant/sequence/history-independence", &format!("first={:?} again={:?} {}", v1, v2, det));
+    }
+  }
+  ctx.count("c07/history/blocks");
+}
+
 fn c07_cases(ctx: &mut Ctx) {
   let opts = GenOpts { plane_wave: false, phase_matched: false };
   let opts_pm = GenOpts { plane_wave: false, phase_matched: true };
@@ -1406,6 +1497,9 @@ fn c07_cases(ctx: &mut Ctx) {
         }
       }
     }
+    if made % 4 == 1 {
+      history_block(ctx, &spdc, Integrator::Simpson { divs: 10 }, &desc);
+    }
     // normalisations and envelope width for the scaled setup (model ↔ implementation)
     let (ws, wi) = gen_freqs(&mut ctx.rng, &scaled);
     let vs = view(&scaled).unwrap();
@@ -1427,8 +1521,19 @@ fn c07_cases(ctx: &mut Ctx) {
 
 // ------------------------------------------------------------------------------------------ C05
 
-/// erf(x)/x by its Maclaurin series (|x| ≤ 3): 2/√π Σ (-1)^n x^{2n} / (n! (2n+1))
+/// erf(x)/x: Maclaurin series 2/√π Σ (-1)^n x^{2n} / (n! (2n+1)) for |x| ≤ 2.5 (cancellation beyond), continued
+/// fraction of erfc above
 fn erf_over_x(x: f64) -> f64 {
+  let x = x.abs();
+  if x > 2.5 {
+    // erfc by its continued fraction e^{-x²}/√π · 1/(x + (1/2)/(x + 1/(x + (3/2)/(x + …)))), evaluated backwards
+    let mut t = x;
+    for k in (1..=80).rev() {
+      t = x + (k as f64 / 2.0) / t;
+    }
+    let erfc = (-x * x).exp() / std::f64::consts::PI.sqrt() / t;
+    return (1.0 - erfc) / x;
+  }
   let x2 = x * x;
   let mut term = 1.0; // (-1)^n x^{2n}/n!
   let mut sum = 1.0;
@@ -1531,18 +1636,28 @@ fn c05_cases(ctx: &mut Ctx) {
     }
     // the statement does not single out an integrator: default Simpson-50, finer Simpson rules
     // (≥ 130 requested divisions take math::simpson's parallel branch) and Gauss–Legendre
-    let integ = match ctx.rng.below(7) {
+    let integ = match ctx.rng.below(9) {
       0 => Integrator::Simpson { divs: 100 },
       1 => Integrator::Simpson { divs: 200 },
       2 => Integrator::Simpson { divs: 400 },
       3 => Integrator::GaussLegendre { degree: 40 },
       4 => Integrator::Simpson { divs: 130 },
+      // adaptive Simpson: the tolerance is absolute, amplitudes are ~1e7…1e11, so the recursion runs to max_depth
+      5 => Integrator::AdaptiveSimpson { tolerance: 1e-6, max_depth: *ctx.rng.pick(&[10usize, 12]) },
+      6 => Integrator::AdaptiveSimpson { tolerance: 1e-8, max_depth: *ctx.rng.pick(&[10usize, 12]) },
       _ => Integrator::default(),
     };
     let iname = match integ {
       Integrator::Simpson { divs } => format!("simpson{}", divs),
       Integrator::GaussLegendre { degree } => format!("gl{}", degree),
+      Integrator::AdaptiveSimpson { tolerance, max_depth } => format!("adaptive-tol{:e}-depth{}", tolerance, max_depth),
       _ => "other".into(),
+    };
+    let iclass = match integ {
+      Integrator::Simpson { .. } => "simpson",
+      Integrator::GaussLegendre { .. } => "gl",
+      Integrator::AdaptiveSimpson { .. } => "adaptive",
+      _ => "other",
     };
     let desc = describe(&spdc);
     let (x, sigma) = walkoff_x(&v);
@@ -1608,12 +1723,23 @@ fn c05_cases(ctx: &mut Ctx) {
     // ---- ratio to the phase-matched value vs |sinc(Δk_z L/2)| through ±3 zeros (|x| ≤ 4π)
     if x <= C05_X_MAX && eta <= C05_DIFFRACTION_MAX {
       let npts = if ctx.thorough { 33 } else { 17 };
-      for k in 0..npts {
-        let frac = -1.0 + 2.0 * (k as f64 + ctx.rng.unit()) / (npts as f64);
-        // target Δk_z L/2 = frac·4π: secant steps from the linear guess (x(t) is not linear for wide detunings)
-        let target_x = frac * 4.0 * std::f64::consts::PI;
+      let pi = std::f64::consts::PI;
+      // targets of Δk_z L/2: spread over [−4π, 4π], plus a dense set at the sinc zeros / lobe ends:
+      // ±3.95π, ±3.98π, ±(4π − δ) with δ log-uniform in [1e-6, 1e-2] and [1e-2, 0.3], and kπ(1 ± 2 %), kπ ± 1e-3
+      let mut targets: Vec<f64> = (0..npts).map(|k| (-1.0 + 2.0 * (k as f64 + ctx.rng.unit()) / (npts as f64)) * 4.0 * pi).collect();
+      for sgn in [1.0, -1.0] {
+        targets.push(sgn * 3.95 * pi);
+        targets.push(sgn * 3.98 * pi);
+        targets.push(sgn * (4.0 * pi - ctx.rng.log_range(1e-6, 1e-2)));
+        targets.push(sgn * (4.0 * pi - ctx.rng.log_range(1e-2, 0.3)));
+        let k = ctx.rng.between(1, 3) as f64;
+        targets.push(sgn * k * pi * (1.0 + 0.02 * ctx.rng.range(-1.0, 1.0)));
+        targets.push(sgn * (k * pi + 1e-3 * ctx.rng.range(-1.0, 1.0)));
+      }
+      for target_x in targets {
+        // secant steps from the linear guess (x(t) is not linear for wide detunings)
         let mut t = t0 + target_x / slope;
-        for _ in 0..3 {
+        for _ in 0..5 {
           if let Some(xa) = xt(t) {
             t -= (xa - target_x) / slope;
           }
@@ -1636,13 +1762,15 @@ fn c05_cases(ctx: &mut Ctx) {
         let ratio = p / peak;
         let target = sinc_abs(xv);
         let dev = (ratio - target).abs();
-        worst_sinc = worst_sinc.max(dev);
         ctx.count(&format!("c05/lobe/{}", ((xv.abs() / std::f64::consts::PI).floor() as usize).min(4)));
+        if dev < 1e-3 {
+          worst_sinc = worst_sinc.max(dev);
+        }
         ctx.s(
           "C05.sinc",
           dev < 1e-3,
-          "sinc/ratio",
-          &format!("dev={:e} ratio={:e} sinc={:e} x_dk={:e} walkoff_x={:e} eta={:e} ws={:.17e} wi={:.17e} integ={} {}", dev, ratio, target, xv, x, eta, ws, wi, iname, desc),
+          &format!("sinc/ratio/{}", iclass),
+          &format!("dev={:e} ratio={:e} sinc={:e} x_dk={:e} x_abs={:.9} peak={:e} walkoff_x={:e} eta={:e} ws={:.17e} wi={:.17e} integ={} {}", dev, ratio, target, xv, xv.abs(), peak, x, eta, ws, wi, iname, desc),
         );
       }
     } else {
